@@ -7,9 +7,9 @@ import (
 
 func init() {
 	plans["C15"] = Plan{Prop: "C15", Level: "exploration",
-		Rule: "one case = one generated valid UDA document (entity array with context, or transaction; default '_' prefix or absolute http/https URIs; all JSON value shapes, nested entities, array refs, shuffled key order, deleted/recorded fields) plus N inputs derived from it by ONE grammar mutation each (wrong JSON type / null / missing for id, deleted, recorded, props, refs, ref values, namespaces, expansions, context, elements, dataset values; unknown and duplicate keys; unresolvable CURIEs; deep arrays; truncation; trailing garbage; empty body) or by byte noise. " +
-			"Go boundary (c15parse): recover() around ParseStream/ParseTransaction; the valid document must parse to exactly the model entities and store/list/feed as the model says; an input that is definitely not a valid payload must return an error, and the entities emitted before the error must be the well-formed elements preceding the malformed one. " +
-			"HTTP boundary (c15http, full app through echo.ServeHTTP incl. recover middleware): POST valid -> GET entities/changes (limits 0,1,3,10 following continuation tokens), every response fed back to the hub's own parser and compared with the model and with the Go API; mutated POSTs (fresh dataset each): no generic 500 (panic), definitely malformed => 4xx, dataset holds only well-formed preceding elements. c15deep: 10^4..5*10^6 deep nesting in a sub-process. " +
+		Rule: "one case = one generated valid UDA document (entity array with context, or transaction; default '_' prefix or absolute http/https URIs; all JSON value shapes, nested entities, array refs, shuffled key order, deleted/recorded fields; key-omission dimension: in half of the documents an entity or nested entity without properties / references leaves the props / refs key out (bare tombstones, nested entities with props only / refs only / id only); identifier-shape dimension: in half of the documents ids, reference values, property and reference keys get local parts containing ':', '/', '#', '%', non-ASCII letters or sub-delimiters, written as prefix:local, as bare names under the default prefix, or absolutely) plus N inputs derived from it by ONE grammar mutation each (wrong JSON type / null / missing for id, deleted, recorded, props, refs, ref values, namespaces, expansions, context, elements, dataset values; unknown and duplicate keys; unresolvable CURIEs; deep arrays; truncation; trailing garbage; empty body) or by byte noise. " +
+			"Go boundary (c15parse): recover() around ParseStream/ParseTransaction; the valid document must parse to exactly the model entities and store/list/feed as the model says; the stored entities and changes, serialised the way the read handlers do (dataset context, json.Marshal per entity, continuation element), must be read back by the hub's own parser to the same entities, and a reader that uses nothing but JSON and the collection's own context (local part = everything after the first colon) must get them too; an input that is definitely not a valid payload must return an error, and the entities emitted before the error must be the well-formed elements preceding the malformed one. " +
+			"HTTP boundary (c15http, full app through echo.ServeHTTP incl. recover middleware): POST valid -> GET entities/changes (limits 0,1,3,10 following continuation tokens), every response fed back to the hub's own parser and compared with the model and with the Go API, and read a second time with the response's own context only; the GET entities and GET changes bodies (continuation element taken off) are POSTed into a fresh dataset, which must accept them and then hold the same entities / history; mutated POSTs (fresh dataset each): no generic 500 (panic), definitely malformed => 4xx, dataset holds only well-formed preceding elements. c15deep: 10^4..5*10^6 deep nesting in a sub-process. " +
 			"Non-trivial = at least one mutated input, or the valid document has a nested-entity / array shape",
 		Assumptions: []string{
 			"'valid' excludes null values, integers beyond 2^53, unknown or duplicate keys, unresolvable CURIEs, entities without id: for those (verdict 'unspec') only 'no panic / no generic 500' is demanded",
@@ -17,6 +17,8 @@ func init() {
 			"entities handed to the caller's emit function count as stored (the HTTP handler stores what is emitted, in batches of 10)",
 			"a 5xx whose body is the recover middleware's generic one is taken as a handler panic; a 5xx HTTPError with the handler's own message counts as 'an error'",
 			"JSON-LD output (Accept: application/ld+json), proxy and virtual datasets are not exercised",
+			"an entity without properties / references may omit the key; a context without a 'namespaces' key stays in the 'unspec' set (only no-panic is demanded)",
+			"prefix:local denotes expansion(prefix) + local with local = everything after the FIRST colon; a bare name denotes expansion('_') + name; nothing is percent-decoded or normalised",
 		},
 		Stages: func(tier string) []Stage {
 			pc, pcases, nmut := 16, 25, 50 // 16*25*51 = 20 400 parser inputs
